@@ -98,7 +98,7 @@ def _aggregates(ctx):
     node_cls = index.get_class(K.SCHED, 'Node')
     nz = N.Normaliser(N.VecHelpers(index.module(K.SCHED)))
 
-    writers = [f for f in bucket.methods.values()
+    writers = [f for f in bucket.live_methods()
                if _stores_attr(f, 'self.free_capacity')]
     writers = [f for f in writers if f.name != '__init__']
     downs = [f for f in writers if any(
@@ -178,11 +178,11 @@ def _aggregates(ctx):
            construct='%s = zero_capacity()' % accname)
 
     # triggers in Server
-    put = K.one([f for f in server.methods.values() if any(
+    put = K.one([f for f in server.live_methods() if any(
         isinstance(s, ast.AugAssign) and isinstance(s.op, ast.Sub)
         for s in _stores_attr(f, 'self.free_capacity'))],
         'Server routine lowering free_capacity')
-    rem = K.one([f for f in server.methods.values() if any(
+    rem = K.one([f for f in server.live_methods() if any(
         isinstance(s, ast.AugAssign) and isinstance(s.op, ast.Add)
         for s in _stores_attr(f, 'self.free_capacity'))],
         'Server routine raising free_capacity')
@@ -239,7 +239,7 @@ def _aggregates(ctx):
 
     # trait sets / labels
     traitset = index.get_class(K.SCHED, 'TraitSet')
-    recalcs = [f for f in traitset.methods.values() if any(
+    recalcs = [f for f in traitset.live_methods() if any(
         isinstance(s, ast.AugAssign) and N.txt(s.target) == 'self.traits'
         for s in K.walk_no_nested(f.node))]
     recalc = K.one(recalcs, 'TraitSet routine combining child traits')
@@ -280,7 +280,7 @@ def _aggregates(ctx):
                            'self.labels')
     narrowing = []
     for cls in (node_cls, bucket, server):
-        for func in cls.methods.values():
+        for func in cls.live_methods():
             if func.name == '__init__':
                 continue
             for sub in K.walk_no_nested(func.node):
@@ -373,7 +373,7 @@ def _shortcut(ctx, down, nz):
 def _memo(ctx, nz):
     tracker = ctx.index.get_class(K.SCHED, 'PlacementFeasibilityTracker')
     count = 0
-    for func in tracker.methods.values():
+    for func in tracker.live_methods():
         graph = ctx.cfg(func)
         facts = N.must_facts(graph, nz)
         for node in graph.nodes:
@@ -416,7 +416,7 @@ def _attr_classes(index):
     mod = index.module(K.SCHED)
     out = {}
     for cls in mod.classes.values():
-        for func in cls.methods.values():
+        for func in cls.live_methods():
             for sub in K.walk_no_nested(func.node):
                 if not isinstance(sub, ast.Assign):
                     continue
